@@ -583,7 +583,7 @@ package raft
 //@ ensures len(entries) > 0 ==> (forall j int :: r.log.inmem.markerIndex <= j && j <= old(r.log.lastIdx()) ==> r.log.termRaw(j) == old(r.log.termRaw(j)))
 //@ ensures r.log.committed >= old(r.log.committed)
 //@ loop 1 modifies elems(entries)
-//@ loop 1 invariant r.wf() && lastIndex == r.log.lastIdx() && (forall k int :: 0 <= k && k <= $i ==> entries[k].Term == r.term && entries[k].Index == lastIndex + 1 + k)
+//@ loop 1 invariant r.wf() && lastIndex == r.log.lastIdx() && (forall k int :: 0 <= k && k <= $i ==> entries[k].Term == r.term && entries[k].Index == lastIndex + 1 + k) && (forall k int :: 0 <= k && k < len(entries) ==> entries[k].Type == old(entries[k].Type))
 
 // C07 (one membership change at a time): while a config change is pending -- proposed and not yet
 // APPLIED, which is when the flag is cleared -- every further config-change entry of a proposal is
